@@ -24,6 +24,21 @@ func fpConf() *config.FormatConfig {
 	iw := []int{2, 4, 0, 1, 8}
 	tw := []int{1, 4, 0, 2, 8}
 	nw := nondet.Param("W") // number of indent / trailing-comment widths explored (they feed strings.Repeat: each value is a path)
+	if nondet.ParamOr("PIN", 0) == 1 {
+		// reduced configuration cube for the path-heavy templates of the quick tier: layout options that
+		// multiply paths are pinned to their defaults, the options that decide where comments go stay symbolic
+		return &config.FormatConfig{
+			IndentWidth: 2, TrailingCommentWidth: 1, IndentStyle: "space", LineWidth: 120,
+			CommentStyle:            nondet.Enum("commentstyle", []string{"none", "slash", "sharp"}),
+			ElseIf:                  nondet.Bool("elseif"),
+			AlwaysNextLineElseIf:    nondet.Bool("nextline"),
+			BreakCompoundConditions: nondet.Bool("breakcond"),
+			IndentCaseLabels:        nondet.Bool("caseindent"),
+			ShouldUseUnset:          nondet.Bool("unset"),
+			SortDeclaration:         nondet.Bool("sortdecl"),
+			SortDeclarationProperty: nondet.Bool("sortprop"),
+		}
+	}
 	return &config.FormatConfig{
 		IndentWidth:                iw[nondet.Choice("indentwidth", nw)],
 		TrailingCommentWidth:       tw[nondet.Choice("trailwidth", nw)],
@@ -73,6 +88,8 @@ func fpComments(src string) []string {
 		if t.Type == token.COMMENT {
 			s := t.Literal
 			switch {
+			case strings.HasPrefix(s, "#FASTLY"):
+				s = "M" + s // a #FASTLY macro is recognised by the linter and the simulator by this exact prefix: it keeps its marker under every comment_style
 			case strings.HasPrefix(s, "/*"):
 				s = "B" + s
 			case strings.HasPrefix(s, "//"):
@@ -148,9 +165,10 @@ var FpPrograms = []string{
 }
 
 // VerifFormat: for skeleton P and every configuration:
-//   C03  the output parses and its tree equals the input's up to the documented rewrites;
-//   C14  formatting the output again returns it unchanged;
-//   C15  the comments of the output are the comments of the input, in order.
+//
+//	C03  the output parses and its tree equals the input's up to the documented rewrites;
+//	C14  formatting the output again returns it unchanged;
+//	C15  the comments of the output are the comments of the input, in order.
 func VerifFormat() {
 	src := FpPrograms[nondet.Param("P")]
 	mode := nondet.Param("MODE") // 0: C03 (meaning preserved), 1: C14 (idempotent), 2: C15 (comments kept)
